@@ -18,7 +18,7 @@
     [q2s t (sps_abs sps)] for [quantize_note_sequence_absolute] (Model/Quantize.v).
     No proofs here. *)
 From Coq Require Import ZArith List Bool Floats.
-From NS Require Import Base.FloatBridge Model.Quantize.
+From NS Require Import Base.NoteSeq Base.FloatBridge Model.Quantize.
 Import ListNotations.
 Local Open Scope Z_scope.
 
@@ -41,13 +41,37 @@ Definition rt_metric (qpm : PrimFloat.float) (spq n s0 : Z) : Z :=
 Definition rt_abs (sps n s0 : Z) : Z :=
   q2s (step_time (sigma_abs sps) n s0) (sps_abs sps).
 
+(** [_quantize_notes] applied to a rendered note / chord annotation whose times are [step_time] of the
+    steps the step-level model gives it ([rt] is one of [rt_rel qpm spq], [rt_metric qpm spq],
+    [rt_abs sps]; [s0] the sequence's start_step): start and end are quantized, an end that lands on
+    the start is moved one step up. *)
+Definition requant_note (rt : Z -> Z -> Z) (s0 : Z) (n : note) : note :=
+  let qs := rt (n_qstart n - s0) s0 in
+  let qe0 := rt (n_qend n - s0) s0 in
+  note_with_qsteps n qs (if qe0 =? qs then qe0 + 1 else qe0).
+
+Definition requant_text (rt : Z -> Z -> Z) (s0 : Z) (t : text) : text :=
+  text_with_qstep t (rt (tx_qstep t - s0) s0).
+
+(** every rendered step lies in [s0, 2^31] and every note has positive length: the domain of the
+    float theorem, as a checkable predicate on the rendered notes / annotations *)
+Definition steps_in_range (s0 : Z) (ns : list note) : bool :=
+  forallb (fun n => (s0 <=? n_qstart n) && (n_qstart n <? n_qend n) && (n_qend n <=? 2 ^ 31)) ns.
+Definition text_steps_in_range (s0 : Z) (ts : list text) : bool :=
+  forallb (fun t => (s0 <=? tx_qstep t) && (tx_qstep t <=? 2 ^ 31)) ts.
+
 (** one row of the regenerated sample table (Gen/G06.v): the times the REAL [to_sequence] produced,
     as exact (mantissa, exponent) pairs, against this model.
     kind: 0 = relative (Melody), 1 = metric (MetricPerformance), 2 = absolute (Performance);
-    for kind 2, [res] is steps_per_second and the qpm pair is ignored. *)
+    for kind 2, [res] is steps_per_second and the qpm pair is ignored.
+    kind 3: [steps_per_quarter_to_steps_per_second(res, qpm)] is the float in the time slot;
+    kind 4: [quantize_to_step(t, res)] = [n] with [t] in the qpm slot (the way back, C01's model). *)
 Definition sample_ok (row : Z * (Z * Z) * Z * Z * Z * (Z * Z)) : bool :=
   let '(kind, (qm, qe), res, n, s0, (tm, te)) := row in
   let qpm := f_of_me qm qe in
-  let sigma := if kind =? 0 then sigma_rel qpm res
-               else if kind =? 1 then sigma_metric qpm res else sigma_abs res in
-  PrimFloat.eqb (step_time sigma n s0) (f_of_me tm te).
+  if kind =? 3 then PrimFloat.eqb (sps_rel res qpm) (f_of_me tm te)
+  else if kind =? 4 then q2s qpm (sps_abs res) =? n
+  else
+    let sigma := if kind =? 0 then sigma_rel qpm res
+                 else if kind =? 1 then sigma_metric qpm res else sigma_abs res in
+    PrimFloat.eqb (step_time sigma n s0) (f_of_me tm te).
